@@ -1,8 +1,90 @@
-(* C02 — placeholder while the proofs are being written: KATs only *)
-From Coq Require Import NArith List.
-From ISAL Require Import Base.Words Base.ListUtil Spec.AES Spec.GF128 Spec.GCM Model.GcmStream.
+(* C02 — AES-GCM one-shot output equals NIST SP 800-38D for every length, AAD, tag size.
+   Statements only, each closed by an already-proved lemma.
+
+   What is proved: the L1 model of the one-shot entry points (Model/GcmStream.v:
+   gcm_oneshot = GCM_INIT; GCM_ENC_DEC; GCM_COMPLETE, the partial-block machinery included)
+   equals gcm_ae / gcm_ad of Spec/GCM.v (SP 800-38D 7.1 / 7.2, validated there by the
+   standard's test cases) for every key of 16 or 32 bytes, every 12-byte IV, every AAD, every
+   data length below 2^64 bytes and every tag length, under every block-deferral policy (the
+   one point in which the four families differ).  The 32-bit counter wrap of inc32 is the
+   standard's own (both sides wrap modulo 2^32; SP 800-38D allows at most 2^36 - 32 bytes).
+   The tie of the model to the assembly is the correspondence run by checks/c02.py. *)
+From Coq Require Import NArith List Arith.
+From ISAL Require Import Base.Words Base.ListUtil Spec.AES Spec.GF128 Spec.GCM Model.GcmStream
+  Proofs.GcmFacts Proofs.GcmStreamFacts Proofs.GcmInst.
 Import ListNotations.
 
+(* encryption: (ciphertext, tag truncated to tag_len) of SP 800-38D *)
+Theorem C02_oneshot_is_38D : forall (defer : nat -> bool) (k iv aad p : list N) (tag_len : nat),
+  length k = 16 \/ length k = 32 -> length iv = 12 -> (N.of_nat (length p) < 2 ^ 64)%N ->
+  let rks := key_expansion k in
+  gcm_oneshot (cipher rks) (gcm_precomp (cipher rks)) defer true iv aad p tag_len =
+  (fst (gcm_ae k iv aad p), firstn tag_len (snd (gcm_ae k iv aad p))).
+Proof. exact c_oneshot_enc_is_38D. Qed.
+Print Assumptions C02_oneshot_is_38D.
+
+(* decryption of any ciphertext: (plaintext, tag over that ciphertext) of SP 800-38D *)
+Theorem C02_oneshot_dec_is_38D : forall (defer : nat -> bool) (k iv aad c : list N) (tag_len : nat),
+  length k = 16 \/ length k = 32 -> length iv = 12 -> (N.of_nat (length c) < 2 ^ 64)%N ->
+  let rks := key_expansion k in
+  gcm_oneshot (cipher rks) (gcm_precomp (cipher rks)) defer false iv aad c tag_len =
+  (fst (gcm_ad k iv aad c), firstn tag_len (snd (gcm_ad k iv aad c))).
+Proof. exact c_oneshot_dec_is_38D. Qed.
+Print Assumptions C02_oneshot_dec_is_38D.
+
+(* one-shot decryption of the ciphertext just produced returns the plaintext and the same tag *)
+Theorem C02_dec_inverts_enc : forall (defer : nat -> bool) (k iv aad p : list N) (tag_len : nat),
+  length k = 16 \/ length k = 32 -> length iv = 12 -> (N.of_nat (length p) < 2 ^ 64)%N ->
+  let rks := key_expansion k in
+  let '(c, t) := gcm_oneshot (cipher rks) (gcm_precomp (cipher rks)) defer true iv aad p tag_len in
+  gcm_oneshot (cipher rks) (gcm_precomp (cipher rks)) defer false iv aad c tag_len = (p, t).
+Proof. exact c_dec_inverts_enc. Qed.
+Print Assumptions C02_dec_inverts_enc.
+
+(* the same round trip at the level of the standard *)
+Theorem C02_spec_ad_of_ae : forall (k iv aad p : list N),
+  length k = 16 \/ length k = 32 -> length iv = 12 ->
+  gcm_ad k iv aad (fst (gcm_ae k iv aad p)) = (p, snd (gcm_ae k iv aad p)).
+Proof. exact c_ad_of_ae. Qed.
+Print Assumptions C02_spec_ad_of_ae.
+
+(* an all-zero AAD of any length leaves aad_hash = 0 after init: how the check evaluates
+   the model for an AAD of 2^29 bytes without hashing it *)
+Theorem C02_ghash_of_zeros : forall h n, ghash_blocks h (zeros 16) (zeros n) = zeros 16.
+Proof. exact c_ghash_blocks_zeros. Qed.
+Print Assumptions C02_ghash_of_zeros.
+
+(* non-vacuity / known answers: the model on the vectors of the GCM specification and of
+   gcm_vectors.h (128- and 256-bit keys, AAD, lengths 0, 16, 60, 64; tags 16, 12, 8; both
+   deferral policies) *)
 Example C02_kat_tc4 :
   gcm_oneshot_aes (key_expansion tc4_K) true tc4_IV tc4_A tc4_P 16 = (tc4_C, tc4_T).
 Proof. vm_compute. reflexivity. Qed.
+
+Example C02_kat_tc16_tag12_dec :
+  gcm_oneshot_aes (key_expansion tc16_K) false tc16_IV tc16_A tc16_C 12 = (tc16_P, firstn 12 tc16_T).
+Proof. vm_compute. reflexivity. Qed.
+
+Example C02_kat_tc1_tc2_tc3_tc13_tc14_tc15 :
+  (gcm_oneshot_aes (key_expansion tc1_K) true tc1_IV tc1_A tc1_P 16,
+   gcm_oneshot_aes (key_expansion tc2_K) true tc2_IV tc2_A tc2_P 16,
+   gcm_oneshot_aes_vaes (key_expansion tc3_K) true tc3_IV tc3_A tc3_P 16,
+   gcm_oneshot_aes (key_expansion tc13_K) true tc13_IV tc13_A tc13_P 8,
+   gcm_oneshot_aes (key_expansion tc14_K) true tc14_IV tc14_A tc14_P 16,
+   gcm_oneshot_aes_vaes (key_expansion tc15_K) false tc15_IV tc15_A tc15_C 16) =
+  ((tc1_C, tc1_T), (tc2_C, tc2_T), (tc3_C, tc3_T), (tc13_C, firstn 8 tc13_T), (tc14_C, tc14_T), (tc15_P, tc15_T)).
+Proof. vm_compute. reflexivity. Qed.
+
+Example C02_kat_repo_vectors :
+  (gcm_oneshot_aes (key_expansion v1_K) true v1_IV v1_A v1_P 16,
+   gcm_oneshot_aes (key_expansion v2_K) true v2_IV v2_A v2_P 16,
+   gcm_oneshot_aes (key_expansion v3_K) true v3_IV v3_A v3_P 16,
+   gcm_oneshot_aes (key_expansion v4_K) false v4_IV v4_A v4_C 16) =
+  ((v1_C, v1_T), (v2_C, v2_T), (v3_C, v3_T), (v4_P, v4_T)).
+Proof. vm_compute. reflexivity. Qed.
+
+(* the hypotheses of the theorems are met by these instances *)
+Example C02_nonvacuous :
+  (length tc16_K = 16 \/ length tc16_K = 32) /\ length tc16_IV = 12 /\ (N.of_nat (length tc16_P) < 2 ^ 64)%N /\
+  length tc16_P = 60 /\ length tc16_A = 20.
+Proof. repeat split; try reflexivity. right. reflexivity. Qed.
